@@ -129,6 +129,7 @@ type Explorer struct {
 	StubDiverged int64
 	canon     int
 	violPerID map[string]int
+	UnknownAsserts map[string]int64
 	Truncated bool
 }
 
@@ -136,6 +137,16 @@ type Worker struct {
 	ex    *Explorer
 	in    *Interp
 	Stats Stats
+}
+
+func (w *Worker) noteUnknown(id string) {
+	ex := w.ex
+	ex.mu.Lock()
+	defer ex.mu.Unlock()
+	if ex.UnknownAsserts == nil {
+		ex.UnknownAsserts = map[string]int64{}
+	}
+	ex.UnknownAsserts[id]++
 }
 
 func (w *Worker) canonBudget() bool {
@@ -445,8 +456,19 @@ func (in *Interp) RunPath(fn *ssa.Function, it *WorkItem) (res *PathResult) {
 				// keep our own model: it drove the concrete choices (choose values)
 				// but both satisfy the path condition; use the solver's for replay
 				p.model = m
+			} else if r == smt.Unsat && p.unsure {
+				// the branch kept because the solver had given no verdict is infeasible after all
+				res.Outcome = "infeasible"
+				w.Stats.Infeasible++
+				w.Stats.PathsOK--
 			} else if r == smt.Unsat {
 				w.Stats.ConfirmBad++
+				if os.Getenv("GOSYM_DUMPBAD") != "" {
+					fmt.Fprintf(os.Stderr, "[bad path] decisions=%v\n", p.taken)
+					for i, l := range p.lits {
+						fmt.Fprintf(os.Stderr, "  lit %d: %s\n", i, l.String())
+					}
+				}
 				res.Outcome = "unencodable"
 				res.Msg = "ENGINE: solver refutes a path condition the engine considered feasible"
 			}
